@@ -261,7 +261,7 @@ def rebuild(root: Any, fn: Callable[[Any, dict[str, Any]], Any | None]) -> Any:
             new = {k: rv(x) for k, x in v.items()}
             if all(new[k] is v[k] for k in v):
                 return v
-            return type(v)(new) if not isinstance(v, dict) else new
+            return type(v)(new)
         return v
 
     def rn(n: Any) -> Any:
